@@ -27,6 +27,10 @@ func genArithCase(rt *rapid.T, prop, op string, d DT, form, via, mode string, la
 	if form == "TT" {
 		b := genOpnd(rt, shape, rapid.SampledFrom(layouts).Draw(rt, "lb"), lo, hi, 15, "b")
 		c.B = &b
+		if rapid.IntRange(0, 11).Draw(rt, "bsame") == 0 {
+			same := c.A // the same tensor on both sides
+			c.B, c.BSame = &same, true
+		}
 	} else {
 		c.Scalar = genCodes(rt, 1, lo, hi, 15, "s")[0]
 		c.ScT = via == "pkg" && rapid.IntRange(0, 3).Draw(rt, "sct") == 0
